@@ -174,17 +174,42 @@ def selftest(tier):
             print("selftest C02: model fault %s (%s) -> TLC reports %s: %s" % (mut, cfg, sorted(ex.violated), "detected" if hit else "NOT detected"))
             ok &= bool(hit)
 
+    hdr_mark = {}
+
     def tamper(n, rec):
-        if n == 7:
+        # (a foreign / runt frame is written from the model's own header bytes: pick a regular one)
+        if n >= 7 and "n" not in hdr_mark and rec["msgs"][0]["name"] != "?":
+            hdr_mark["n"] = n
             rec["msgs"][0]["hdr"][1] ^= 1
         return rec
     ex = F.explore(wd, PROP, "c02", "quick", ["vanilla/client"], tag="st")
     recs = os.path.join(wd, "st.ndjson")
     n = F.number_records(ex.paths, recs, "st", tamper)
     verdicts, totals = F.run_replay(binary, SUB, recs, F.make_keys(1, PROP), rotate=1)
-    hit = [x for x in verdicts if x.get("id") == "st:7" and x.get("verdict") in ("header", "cipher_header")]
-    print("selftest C02: corrupted header byte in model record 7 -> %s" % ("detected" if hit else "NOT detected"))
+    hit = [x for x in verdicts if x.get("id") == "st:%s" % hdr_mark.get("n") and x.get("verdict") in ("header", "cipher_header")]
+    print("selftest C02: corrupted header byte in model record %s -> %s" % (hdr_mark.get("n"), "detected" if hit else "NOT detected"))
     ok &= bool(hit)
+
+    # foreign / runt frames: the expected reader position behind one, and the opcode it must report
+    marks = {}
+
+    def tamper_foreign(n, rec):
+        rd = rec["reads"][rec["msgs"][0]["dir"]]
+        odd = [i for i, x in enumerate(rd) if x["name"] == "?"]
+        if odd and len(rd) == 2 and "end" not in marks:
+            marks["end"] = n
+            rd[odd[0]]["end"] += 1
+        elif odd and "opcode" not in marks:
+            marks["opcode"] = n
+            rd[odd[0]]["opcode"] += 1
+        return rec
+    n = F.number_records(ex.paths, recs, "sf", tamper_foreign)
+    verdicts, totals = F.run_replay(binary, SUB, recs, F.make_keys(1, PROP), rotate=None)
+    hit_end = [x for x in verdicts if x.get("id") == "sf:%s" % marks.get("end") and x.get("verdict") == "consumed"]
+    hit_op = [x for x in verdicts if x.get("id") == "sf:%s" % marks.get("opcode") and x.get("verdict") == "message"]
+    print("selftest C02: reader position behind a foreign frame moved by one in model record %s -> %s" % (marks.get("end"), "detected" if hit_end else "NOT detected"))
+    print("selftest C02: opcode a foreign frame must be reported with altered in model record %s -> %s" % (marks.get("opcode"), "detected" if hit_op else "NOT detected"))
+    ok &= bool(hit_end) and bool(hit_op)
 
     st, tr, caps, _ = F.lemma(wd, PROP, 100, 1)
     # the trace self-tests use the messages whose frames are accepted on the current tree, and first
